@@ -29,6 +29,12 @@ func rbody(c rscen, ctx *hk.Ctx) {
 	s.BindRTCPReader()
 	l1 := s.BindLocal(1, true)
 	r1 := s.BindRemote(1, true)
+	var lb, lc *hk.Local
+	for _, name := range c.Threads {
+		if name == "rtcp-in-bc" {
+			lb, lc = s.BindLocal(2, true), s.BindLocal(3, true)
+		}
+	}
 	vsched.Quiesce()
 	sent, recv, nackIn, pliOut := 0, 0, 0, 0
 	var ths []*vsched.Thread
@@ -80,6 +86,16 @@ func rbody(c rscen, ctx *hk.Ctx) {
 				buf := make([]byte, 1500)
 				_, _, _ = rd.Read(buf, nil)
 			}))
+		case "rtcp-in-bc":
+			// two more local streams B and C are bound; one compound carries a NACK for each of them
+			rd, set := s.NewRTCPReader()
+			ths = append(ths, vsched.GoApp("rtcp-in-bc", func() {
+				set(append(hk.RawNACK(lb.Info.SSRC, 1), hk.RawNACK(lc.Info.SSRC, 1)...))
+				buf := make([]byte, 1500)
+				_, _, _ = rd.Read(buf, nil)
+			}))
+		case "unbind-l1":
+			ths = append(ths, vsched.GoApp("unbind-l1", func() { s.I.UnbindLocalStream(l1.Info) }))
 		case "rtcp-out":
 			pliOut++
 			ths = append(ths, vsched.GoApp("rtcp-out", func() {
@@ -91,6 +107,23 @@ func rbody(c rscen, ctx *hk.Ctx) {
 		t.Join()
 	}
 	vsched.Quiesce()
+	if lb != nil {
+		// the streams that stay bound while another one is unbound: each saw exactly one NACK
+		for _, l := range []*hk.Local{lb, lc} {
+			st := x.Stats.Get(l.Info.SSRC)
+			if st == nil {
+				ctx.Fail("C19:get-nil-for-bound-stream", "Get returned nil for a bound stream")
+				return
+			}
+			if st.OutboundRTPStreamStats.NACKCount != 1 {
+				ctx.Fail("C19:concurrent:nack-count-wrong-while-another-stream-is-unbound", "stream %#x: NACKCount = %d after one compound with one NACK for it (another stream was unbound meanwhile)", l.Info.SSRC, st.OutboundRTPStreamStats.NACKCount)
+				return
+			}
+		}
+		_ = i.Close()
+		ctx.Outcome("ok-bc")
+		return
+	}
 	lo := x.Stats.Get(l1.Info.SSRC)
 	ri := x.Stats.Get(r1.Info.SSRC)
 	if lo == nil || ri == nil {
@@ -131,6 +164,7 @@ func rscenarios(tier string) []rscen {
 		{[]string{"w", "rtcp-out"}, b},
 		{[]string{"w", "rtcp-out-sr", "rtcp-in-rr"}, b},
 		{[]string{"r", "rtcp-out-sr", "rtcp-in-rr"}, b},
+		{[]string{"rtcp-in-bc", "unbind-l1"}, b},
 	}
 }
 
